@@ -1,4 +1,5 @@
 import SSVerif.Model.Json
+set_option linter.unusedSimpArgs false
 /-! helper lemmas for C14: stores into a block that is "written prefix ++ zeros" -/
 namespace SSVerif.Json
 
